@@ -142,6 +142,26 @@ def run_nlc(case, ctx):
             and numpy.allclose(numpy.asarray(maf), maa, rtol=0, atol=1e-9)):
         ctx.violation(K + "frame-differs-from-array", "DataFrame and array give different values under the same seed",
                       cfg=cfg)
+    # a model that would remember a previous fit if it were reused (warm_start): the function fits a fresh clone for
+    # every pair of variables, so the flag cannot matter
+    if case["sub"] % 4 == 2 and X.shape[0] <= 120:
+        try:
+            from sklearn.ensemble import RandomForestRegressor, GradientBoostingRegressor
+            mk = [lambda ws: RandomForestRegressor(n_estimators=4, max_depth=3, random_state=0, warm_start=ws),
+                  lambda ws: GradientBoostingRegressor(n_estimators=6, max_depth=2, random_state=0, warm_start=ws)][
+                      (case["sub"] // 4) % 2]
+            numpy.random.seed(seed)
+            cw = non_linear_correlations(Xk.copy(), mk(True), draws=min(draws, 2))
+            numpy.random.seed(seed)
+            cn = non_linear_correlations(Xk.copy(), mk(False), draws=min(draws, 2))
+            ctx.hit("nlc.stateful_model")
+            if not numpy.allclose(cw, cn, rtol=0, atol=1e-12, equal_nan=True):
+                i, j = numpy.argwhere(~numpy.isclose(cw, cn, rtol=0, atol=1e-12, equal_nan=True))[0]
+                ctx.violation(K + "model-reused-between-fits", "with warm_start=True the entry (%d, %d) is %.6g, with "
+                              "warm_start=False %.6g under the same seed: a model is fitted again without being "
+                              "cloned" % (i, j, cw[i, j], cn[i, j]), cfg=cfg)
+        except Exception as e:
+            ctx.violation(K + "raised/%s/%s" % (kind, type(e).__name__), "ensemble model: %s" % str(e)[:150], cfg=cfg)
     # the same array object refilled in place between two calls
     try:
         other = make_table(numpy.random.RandomState(case["sub"] % 997 + 1), kind)
